@@ -196,7 +196,7 @@ package services
 //@ func (*subscriberServer).UpdateSubscription$1(tx) (err)
 //@   inline
 //@   loop 1
-//@     invariant req.Subscription != nil && req != nil && sub != nil
+//@     invariant req.Subscription != nil && req != nil && sub != nil && (req.UpdateMask == nil || idx < len(req.UpdateMask.Paths))
 //@     invariant untouched_name: ub.subscriptions.name$op(subUpdate) == 0
 //@     invariant untouched_created_at: ub.subscriptions.created_at$op(subUpdate) == 0
 //@     invariant untouched_live: ub.subscriptions.live$op(subUpdate) == 0
@@ -223,7 +223,7 @@ package services
 //@ func (*publisherServer).UpdateTopic$1(tx) (err)
 //@   inline
 //@   loop 1
-//@     invariant req.Topic != nil && req != nil
+//@     invariant req.Topic != nil && req != nil && (req.UpdateMask == nil || idx < len(req.UpdateMask.Paths))
 //@     invariant untouched: ub.topics.name$op(topicUpdate) == 0 && ub.topics.created_at$op(topicUpdate) == 0 && ub.topics.live$op(topicUpdate) == 0 && ub.topics.deleted_at$op(topicUpdate) == 0
 //@     invariant local_labels: ub.topics.labels$op(topicUpdate) != 0 ==> (exists k int :: req.UpdateMask != nil && 0 <= k && k <= idx && req.UpdateMask.Paths[k] == "labels")
 //@     invariant applied_labels: (exists k int :: req.UpdateMask != nil && 0 <= k && k <= idx && req.UpdateMask.Paths[k] == "labels") ==> ub.topics.labels$op(topicUpdate) == 1 && ub.topics.labels(topicUpdate) == req.Topic.Labels
